@@ -913,4 +913,46 @@ def identity_facts(schema):
                 iname = getattr(i, "name", None)
                 if t not in schema.implementations.get(iname, []):
                     bad.append(("implementations-index", "%s<-%s" % (iname, name), "missing from schema.implementations"))
+    for iname in schema.implementations:
+        if schema.implementations[iname] and iname not in schema.types:
+            bad.append(("implementations-index", iname, "entry for a type that is not registered"))
+    # lazily filled caches must only hold registered objects and agree with a fresh computation
+    for key, members in getattr(schema, "_possible_types", {}).items():
+        kname = getattr(key, "name", "?")
+        if schema.types.get(kname) is not key:
+            bad.append(("possible-types-cache", kname, "cache key is not the registered type object"))
+            continue
+        fresh = key.types if isinstance(key, S.UnionType) else schema.implementations.get(kname, [])
+        if [id(x) for x in members] != [id(x) for x in fresh or []]:
+            bad.append(("possible-types-cache", kname, "cached members differ from the registered ones"))
+    for node, t in getattr(schema, "_literal_types_cache", {}).items():
+        try:
+            inner = S.unwrap_type(t)
+        except Exception:  # noqa
+            continue
+        if schema.types.get(getattr(inner, "name", None)) is not inner:
+            bad.append(("literal-types-cache", getattr(inner, "name", "?"), "cached type is not the registered object"))
     return sorted(bad)
+
+
+def derived_state(schema):
+    """JSON-able digest of what the structural dump does not show: derived indexes, registries, memo."""
+    from py_gql.exc import SchemaValidationError
+    from py_gql.schema.validation import validate_schema
+
+    out = {
+        "implementations": {k: sorted(o.name for o in v) for k, v in sorted(schema.implementations.items()) if v},
+        "resolvers": sorted((tn, fn, tag_of(r)) for tn, d in schema.resolvers.items() for fn, r in d.items()),
+        "subscriptions": sorted((tn, fn, tag_of(r)) for tn, d in schema.subscriptions.items() for fn, r in d.items()),
+        "default_resolvers": sorted((tn, tag_of(r)) for tn, r in schema.default_resolvers.items()),
+        "is_valid": schema._is_valid,
+        "memo": "ok",
+    }
+    if schema._is_valid:
+        try:
+            validate_schema(schema)
+        except SchemaValidationError as e:
+            out["memo"] = "stale: memo says valid, fresh validation says %s" % str(e)[:120]
+        except Exception as e:  # noqa
+            out["memo"] = "fresh validation raises %s" % type(e).__name__
+    return out
